@@ -56,6 +56,8 @@ def enumerate_cases(tier):
         for cols in range(1, 7):
             flat = [float(i + 1) for i in range(cols)]
             yield dict(_base("Trough", 1, cols, vrows), init={"t": "percol", "v": flat})
+            yield dict(_base("Trough", 1, cols, vrows), init={"t": "percol-tuple", "v": flat})
+            yield dict(_base("Trough", 1, cols, vrows), init={"t": "percol-array", "v": flat})
             yield dict(_base("LabwareV", 1, cols, vrows), init={"t": "flat", "v": flat})
             yield dict(_base("LabwareV", 1, cols, vrows), init={"t": "2d", "v": [flat]})
     for b in bases:
@@ -79,9 +81,10 @@ def enumerate_cases(tier):
                     yield dict(b, init={"t": "percol", "v": flat}, aspects={"init": "invalid"})
                 else:
                     yield dict(b, init={"t": "flat", "v": flat}, aspects={"init": "invalid"})
-        for n in (nreal + 1, max(0, nreal - 1), 2 * nreal):
-            if n != nreal and not (n == 1):
-                yield dict(b, init={"t": "percol" if b["ctor"] == "Trough" else "flat", "v": [50.0] * n}, aspects={"init-length": "invalid"})
+        for n in (nreal + 1, max(0, nreal - 1), 2 * nreal, 1):
+            if n != nreal and (n != 1 or b["ctor"] == "Trough"):
+                for rep in (("percol", "percol-tuple", "percol-array") if b["ctor"] == "Trough" else ("flat",)):
+                    yield dict(b, init={"t": rep, "v": [50.0] * n}, aspects={"init-length": "invalid"})
         # names
         if b["ctor"] == "Trough":
             if b["cols"] >= 2:
@@ -263,7 +266,7 @@ def _classify(case):
         vals = None
         if init["t"] == "scalar":
             vals = [_v(init["v"])]
-        elif init["t"] in ("flat", "percol"):
+        elif init["t"] in ("flat", "percol", "percol-tuple", "percol-array"):
             vals = [_v(x) for x in init["v"]]
             if len(vals) != nreal:
                 if len(vals) == 1 and init["t"] == "flat":
@@ -329,6 +332,10 @@ def _build(case):
         iv = _v(init["v"])
     elif init["t"] == "2d":
         iv = np.array([[_v(x) for x in row] for row in init["v"]], dtype=float)
+    elif init["t"] == "percol-tuple":
+        iv = tuple(_v(x) for x in init["v"])
+    elif init["t"] == "percol-array":
+        iv = np.array([_v(x) for x in init["v"]], dtype=float)
     else:
         iv = [_v(x) for x in init["v"]]
     kw = {"min_volume": _v(case["min"]), "max_volume": _v(case["max"])}
